@@ -27,6 +27,7 @@ var c10Corpus = []string{
 }
 
 var c10Hostile = []string{
+	"a == \"\ufffd\"", "a == `x\ufffdy`", "a[\"\ufffd\"] == 1", "\ufffd", "a == 1\ufffd", "a == b[\"c.d\"]",
 	"", " ", "\t\r\n", "(", ")", "()", "( )", "((", "))", "{", "}", "[", "]", ".", ",", "\"", "`", "\"\"", "``", "\"\\", "\"\\\"", "'", "''",
 	"a", "a ==", "== 1", "a == ", "a == \"", "a == `", "a == \"\\q\"", "a == \"\\x4\"", "a == \"\\u12\"", "a == \"\n\"", "a == \"\xff\"", "a == `\xff`", "\xff", "\xc3", "\xed\xa0\x80", "\xf4\x90\x80\x80",
 	"a == 1\x00", "\x00", "a\x00b == 1", "a == \"\x00\"", "a[", "a[\"x\"", "a[1]", "a[]", "a[\"x\"]]", "a.", "a..b == 1", "a.1x == 1", "1 == a", "1 in", "1 in 2", "x in \"", "x in (",
